@@ -236,8 +236,8 @@ def mul(op, input, other):
 
 @register_qbytestensor_op([torch.ops.aten.relu])
 def relu(op, input):
-    if input.qtype.is_floating_point:
-        # Relu is not supported for float8 types
+    if input.qtype.is_floating_point or not torch.all(input._scale > 0):
+        # Relu is not supported for float8 types, and cannot be applied to the data when the scale is negative
         return qfallback(op, input)
     out_data = op(input._data)
     return QBytesTensor(input.qtype, input.axis, input.size(), input.stride(), out_data, input._scale)
